@@ -8,6 +8,7 @@ using namespace vp;
 
 enum { F_CEIL, F_FLOOR, F_TRUNC, F_ROUND, F_NEARBYINT, F_RINT, F_COUNT };
 enum { OP_SC0 = F_COUNT, OP_ENV = 2 * F_COUNT, OP_COUNT };
+enum { ENV_OPS = 68 };   // operations sampled for the environment invariant (every function and operator the float vectors offer)
 static const VpOp OPS[] = {
     {"ceil", {VK_FLT}, {SK_SMALL}, 2}, {"floor", {VK_FLT}, {SK_SMALL}, 2}, {"trunc", {VK_FLT}, {SK_SMALL}, 2}, {"round", {VK_FLT}, {SK_SMALL}, 2}, {"nearbyint", {VK_FLT}, {SK_SMALL}, 3}, {"rint", {VK_FLT}, {SK_SMALL}, 3},
     {"scalar_ceil", {VK_FLT}, {SK_SMALL}, 1}, {"scalar_floor", {VK_FLT}, {SK_SMALL}, 1}, {"scalar_trunc", {VK_FLT}, {SK_SMALL}, 1}, {"scalar_round", {VK_FLT}, {SK_SMALL}, 1},
@@ -51,7 +52,7 @@ template<class V> __attribute__((noinline)) static uint64_t env_sample(unsigned 
     V r = *a; IV ir{}; typename V::mask m{};
     uint64_t ia[VP_MAXL], ib[VP_MAXL]; rd<V>(*a, ia); rd<V>(*b, ib);
     IV x = mk<IV>(ia), y = mk<IV>(ib);
-    switch (k % 40) {
+    switch (k % ENV_OPS) {
     case 0: r = *a + *b; break; case 1: r = *a - *b; break; case 2: r = *a * *b; break; case 3: r = *a / *b; break;
     case 4: r = avel::sqrt(*a); break; case 5: r = avel::fmax(*a, *b); break; case 6: r = avel::fmin(*a, *b); break; case 7: r = avel::fdim(*a, *b); break;
     case 8: r = avel::frexp(*a, &ir); break; case 9: r = avel::ldexp(*a, y); break; case 10: r = avel::scalbn(*a, y); break; case 11: ir = avel::ilogb(*a); break;
@@ -63,7 +64,19 @@ template<class V> __attribute__((noinline)) static uint64_t env_sample(unsigned 
     case 31: ir = x * y; break; case 32: { uint64_t z[VP_MAXL]; for (unsigned i = 0; i < V::width; ++i) z[i] = ib[i] | 1; ir = avel::div(x, mk<IV>(z)).quot; break; }
     case 33: { uint64_t z[VP_MAXL]; for (unsigned i = 0; i < V::width; ++i) z[i] = ib[i] | 1; UV q = avel::div(mk<UV>(ia), mk<UV>(z)).rem; rd<UV>(q, sink); acc ^= sink[0]; break; }
     case 34: ir = avel::countl_zero(x); break; case 35: ir = avel::popcount(x); break; case 36: ir = avel::average(x, y); break; case 37: ir = avel::midpoint(x, y); break;
-    case 38: r = avel::negate(*a < *b, *a); break; default: r = -*a; break;
+    case 38: r = avel::negate(*a < *b, *a); break; case 39: r = -*a; break;
+    case 40: m = avel::isgreaterequal(*a, *b); break; case 41: m = avel::isless(*a, *b); break; case 42: m = avel::islessequal(*a, *b); break;
+    case 43: m = (*a != *b); break; case 44: m = (*a <= *b); break; case 45: m = (*a > *b); break;
+    case 46: r = avel::ceil(*a); break; case 47: r = avel::floor(*a); break; case 48: r = avel::trunc(*a); break; case 49: r = avel::round(*a); break;
+    case 50: r = avel::nearbyint(*a); break; case 51: r = avel::rint(*a); break; case 52: r = avel::neg_abs(*a); break;
+    case 53: r = avel::blend(*a < *b, *a, *b); break; case 54: r = avel::keep(*a >= *b, *a); break; case 55: r = avel::clear(*a == *b, *b); break;
+    case 56: { auto mm = avel::minmax(*a, *b); r = mm[0]; break; } case 57: r = avel::byteswap(*a); break;
+    case 58: { V t = *a; t += *b; t -= *a; t *= *b; t /= *a; r = t; break; } case 59: { V t = *a; ++t; --t; r = t++; break; }
+    case 60: { typename V::mask q(*a); m = q; break; } case 61: { V t(*a < *b); r = t; break; }
+    case 62: { T buf[VP_MAXL + 1]; avel::store(buf, *a); r = avel::load<V>(buf); break; } case 63: { auto arr = avel::to_array(*a); r = V{arr}; break; }
+    case 64: { T buf[VP_MAXL + 1]; for (unsigned i = 0; i <= V::width; ++i) buf[i] = T(i); avel::store(buf, *a, V::width / 2 + 1); r = avel::load<V>(buf, V::width / 2 + 1); break; }
+    case 65: r = avel::insert<0>(*a, avel::extract<0>(*b)); break; case 66: m = !(*a < *b) & (*a == *a) | (*b != *b); break;
+    default: { IV cnt = avel::fpclassify(*b); ir = cnt; r = avel::fdim(*b, *a); break; }
     }
     rd<V>(r, sink); acc ^= sink[0]; rd<IV>(ir, sink); acc ^= sink[0]; acc ^= avel::count(m);
     return acc;
@@ -114,8 +127,8 @@ template<class V> static void run(const VpCase* c, VpOutcome* o) {
         o->nontrivial = nt; if (!nt) o->classes |= 1u << CL_ORDINARY;
         ++o->lanes_compared;
         if (!before.same(after)) {
-            char tag[96]; std::snprintf(tag, sizeof tag, "fp_environment_changed:op%u", k % 40);
-            fail(o, -1, tag, "operation #%u changed the FP environment: MXCSR control %04x -> %04x, x87 cw %04x -> %04x (mode %d, ftz/daz %u)", k % 40, before.mxcsr_ctl, after.mxcsr_ctl, before.x87, after.x87, mode, ftzdaz);
+            char tag[96]; std::snprintf(tag, sizeof tag, "fp_environment_changed:op%u", k % ENV_OPS);
+            fail(o, -1, tag, "operation #%u changed the FP environment: MXCSR control %04x -> %04x, x87 cw %04x -> %04x (mode %d, ftz/daz %u)", k % ENV_OPS, before.mxcsr_ctl, after.mxcsr_ctl, before.x87, after.x87, mode, ftzdaz);
         }
         return;
     }
@@ -209,7 +222,7 @@ extern "C" void vp_enum(int tier, uint64_t seed, uint32_t shard, uint32_t nshard
         }
         // environment invariant: every sampled operation x rounding mode x FTZ/DAZ setting
         if ((job++ % nshards) == shard)
-            for (unsigned k = 0; k < 40; ++k) for (int mode = 0; mode < 4; ++mode) for (unsigned fd = 0; fd < 4; ++fd) {
+            for (unsigned k = 0; k < ENV_OPS; ++k) for (int mode = 0; mode < 4; ++mode) for (unsigned fd = 0; fd < 4; ++fd) {
                 VpCase c; std::memset(&c, 0, sizeof c); c.target = t; c.op = OP_ENV; c.s[0] = mode; c.s[1] = fd; c.s[2] = k;
                 for (unsigned i = 0; i < W; ++i) { c.v[0][i] = L[(k * 31 + i * 7 + mode) % n]; c.v[1][i] = L[(k * 17 + i * 3 + fd + 5) % n]; }
                 emit(&c, ctx);
